@@ -4,6 +4,8 @@
 //!   probe-thread free  <timeout_ms> <order f|r> <specs>
 //!   probe-thread hist  <timeout_ms> <reps> <log 0|1> <specs>
 //!   probe-thread fault <n>
+//!   probe-thread race  <timeout_ms> <rounds> <batch> <gh> <gt> <hold_h> <maxskew> <spec>
+//!                      (SAMPLED gate-aligned race sweep, see ctl::race_gate)
 //!
 //! specs    = `type:outcome:op` joined by `,`
 //!            type    unit|u8|u64|a3|al64|big|box|str
@@ -718,13 +720,100 @@ fn mode_fault(args: &[&str]) -> i32 {
     0
 }
 
+/// Gate-aligned race sweep: `rounds` threads one after the other; in each round the handle
+/// owner is parked at gate gh and the thread at gate gt, both are released at once and the
+/// later party first spins `skew` pauses, skew swept over -maxskew..=maxskew.  Reported in
+/// batches (ordinals restart per batch) in the same format as a logged history.
+fn mode_race(args: &[&str]) -> i32 {
+    if args.len() != 8 {
+        return usage();
+    }
+    let mut nums = [0u64; 7];
+    for i in 0..7 {
+        let Some(v) = ctl::parse_u(args[i]) else {
+            return usage();
+        };
+        nums[i] = v;
+    }
+    let [tmo, rounds, batch, gh, gt, hold_h, maxskew] = nums;
+    let Some(sp) = parse_spec(args[7]) else {
+        return usage();
+    };
+    if batch == 0 || batch as usize > MAXN - 1 {
+        return usage();
+    }
+    let tmo_us = tmo * 1000;
+    ctl::TIMEOUT_US.store(tmo_us, SeqCst);
+    sys::alarm(4 * tmo / 1000 + 5 + rounds / 100);
+    out::s("mode race\n");
+    out::line("main_tid", &[ctl::MAIN_TID.load(SeqCst) as u64]);
+    snapshot("base", Some("maps0"));
+    galloc::configure(true, true);
+    ctl::set_race(gh as u32, gt as u32, hold_h as u32);
+    tiny_std::verif::set_gate_fn(Some(ctl::gate));
+    let span = 2 * maxskew as i64 + 1;
+    let mut done_rounds = 0u64;
+    let mut hangs = 0u64;
+    while done_rounds < rounds {
+        let nb = core::cmp::min(batch, rounds - done_rounds);
+        out::line("batch", &[done_rounds, nb]);
+        for k in 0..nb as usize {
+            let round = done_rounds + k as u64;
+            let skew = (round as i64 % span) - maxskew as i64;
+            ctl::race_round(skew as i32);
+            let h = match spawn_one(k, round, sp, 0) {
+                Ok(h) => h,
+                Err(_) => {
+                    out::line("spawn", &[k as u64, 0]);
+                    continue;
+                }
+            };
+            if sp.op == b'j' {
+                do_join(k, k, h);
+            } else {
+                do_drop(k, h);
+            }
+            if !wait_started_and_gone(k, tmo_us) {
+                hangs += 1;
+            }
+            out::s("runs ");
+            out::u(k as u64);
+            out::sp();
+            out::u(RUNS[k].load(SeqCst) as u64);
+            out::s(" effect ");
+            out::x(effect_of(k));
+            out::nl();
+        }
+        out::line("alive", &[hangs]);
+        ctl::dump_ids();
+        snapshot("end", None);
+        galloc::dump(false);
+        out::line(
+            "race",
+            &[
+                ctl::RACE_ALIGNED.load(SeqCst) as u64,
+                ctl::RACE_UNALIGNED.load(SeqCst) as u64,
+            ],
+        );
+        out::s("endbatch\n");
+        ctl::reset();
+        galloc::reset_log();
+        done_rounds += nb;
+    }
+    tiny_std::verif::set_gate_fn(None);
+    snapshot("end", Some("maps1"));
+    out::s("done\n");
+    out::flush();
+    0
+}
+
 #[no_mangle]
 pub fn main() -> i32 {
     ctl::init();
-    let mut argv: [&str; 8] = [""; 8];
+    let mut argv: [&str; 12] = [""; 12];
     let mut n = 0;
     for a in tiny_std::env::args().skip(1) {
-        if n < 8 {
+        if n < 12 {
             argv[n] = a.unwrap_or("");
             n += 1;
         }
@@ -737,6 +826,7 @@ pub fn main() -> i32 {
         "free" => mode_free(&argv[1..n]),
         "hist" => mode_hist(&argv[1..n]),
         "fault" => mode_fault(&argv[1..n]),
+        "race" => mode_race(&argv[1..n]),
         _ => usage(),
     };
     // leave with exit_group: never hang on a stray thread
